@@ -34,6 +34,7 @@ def handle (line : String) : String :=
       | "exc"     => handleExc fs
       | "hist"    => handleHist fs
       | "handover" => handleHandover fs
+      | "kill"    => handleKill fs
       | _ => none
     r.getD "bad-op"
 
